@@ -267,7 +267,7 @@ def window_tokens():
         toks.append(("S", nm))
         toks.append(("E", nm))
     toks += [("Sa", "p"), ("Sa", "html"), ("Sa", "body"), ("Sa", "tbody"), ("Sa", "m"), ("V", "col"), ("V", "meta"),
-             ("V", "link"), ("V", "hr"), ("V", "br"), ("T", "x"), ("W", " "), ("C", "c"), ("D", "html"), None]
+             ("V", "link"), ("V", "hr"), ("V", "br"), ("T", "x"), ("W", " "), ("C", "c"), ("D", "html"), ("N", "amp"), ("X", "err"), None]
     return toks
 
 
@@ -289,6 +289,10 @@ def mk(tok):
         return {"type": "Comment", "data": v}
     if k == "D":
         return {"type": "Doctype", "name": v, "publicId": None, "systemId": None}
+    if k == "N":
+        return {"type": "Entity", "name": v}
+    if k == "X":
+        return {"type": "SerializeError", "data": v}
 
 
 def window_allowed(prev, cur, nxt):
